@@ -66,7 +66,7 @@ def c08_runs(tier):
     return runs
 
 
-reg('C08', level='model_checking', runs=c08_runs, quick_budget_s=400, thorough_budget_s=1800,
+reg('C08', level='model_checking', runs=c08_runs, quick_budget_s=400, thorough_budget_s=1200,
     technique='stateless model checking of the real ThreadPool with TaskSet / ConcurrentTaskSet: histories of submissions, waits and resizes explored jointly with the schedules of the workers; the private counter workRemaining_ is read at model-level quiescent points (-fno-access-control, no hook)',
     level_text='Histories of <= 4 steps (plus check points) over {ThreadPool::schedule, schedule(FQ), scheduleBulk; TaskSet::schedule, schedule(FQ), scheduleBulk (ring fast path count*4 >= N && count <= N && numRings >= count, and the standard path), scheduleBulk(FQ); ConcurrentTaskSet kHeavy schedule / schedule(FQ) / scheduleBulk (steal-ring placement) and kLightweight schedule / scheduleBulk; wait; resize(0|1|2); setSignalingWake(false|true)} on pools that start with 0, 1 or 2 threads, poolLoadMultiplier 1 (and 32). Families "any submission, any resize", "parked workers, any submission, any resize", two rounds, submission after the resize, poll mode: every member of the family, quick under the default schedules (bound 0: the submitting thread runs on into resize() while the woken workers have not run yet, so the work still sits in the rings / steal rings / central queue when resize drains them) and named histories with <= 1 deviation; thorough: families with <= 1 deviation, named histories with <= 2, and a second thread submitting during the resize. Quiescent point = every functor finished, no call in progress, every worker parked (totalSleeping == numThreads: a worker flushes its batched decrements before it registers as sleeping) or no workers. Oracle: workRemaining_ == 0 and poolLoadFactor_ == numThreads*multiplier, i.e. the state of a fresh pool; in probe mode only the public effect: schedule() on the idle pool must queue, not run inline.',
     level_note='SC interleavings. In poll mode workers never register as sleeping, so quiescence is only established after a final resize(0). TSan and ASan legs on two named histories.',
